@@ -329,7 +329,14 @@ def _ack(chk, repo, folder):
 
 
 def _after_mismatch_exit(ff, st) -> bool:
-    """`st` is reached only past `if ackseq != self._blksize: ...; return`."""
+    """`st` runs only when the acknowledged count equals the block size (past `if ackseq != self._blksize: ...; return`, or in
+    the else branch of that test): decided from the conditions in force at the statement."""
+    ne, eq = ff.canon("ackseq != self._blksize"), ff.canon("ackseq == self._blksize")
+    for e, p in ff.facts_at(st):
+        t = ff.norm(e, subst=False)
+        if (t == ne and not p) or (t == eq and p):
+            return True
+    # the fact is gone once self._blksize itself has been stored: the guard clause form is recognised by dominance
     from .common import always_exits
     node = ff.cfg.node_of(st)
     for t in ff.cfg.nodes:
